@@ -371,8 +371,17 @@ def rule_M7(F, R):
     st = F.bodies.get(TASK + "::set_timestamp")
     gt = F.bodies.get(TASK + "::get_timestamp")
     if st is not None and gt is not None:
-        sc = {n for cp in [st["path"]] + list(F.closures_in.get(st["path"], ())) for (_i, t) in F.calls_in.get(cp, ()) for n in call_names(t)}
-        gc = {n for (_i, t) in F.calls_in.get(gt["path"], ()) for n in call_names(t)}
+        def _with_closures(p0):
+            out, todo = [], [p0]
+            while todo:
+                q = todo.pop()
+                if q in out:
+                    continue
+                out.append(q)
+                todo += list(F.closures_in.get(q, ()))
+            return out
+        sc = {n for cp in _with_closures(st["path"]) for (_i, t) in F.calls_in.get(cp, ()) for n in call_names(t)}
+        gc = {n for cp in _with_closures(gt["path"]) for (_i, t) in F.calls_in.get(cp, ()) for n in call_names(t)}
         w_ok = any(n.endswith("::timestamp") for n in sc) and any(n.endswith("ToString::to_string") for n in sc)
         r_ok = any(re.search(r"str>::parse$|<impl str>::parse", n) for n in gc) and any(n.endswith("from_timestamp") for n in gc)
         if w_ok and r_ok:
